@@ -60,15 +60,21 @@ def Interval.intersectsPoint {α : Type} [LE α] [DecidableLE α] (b : Interval 
   else
     false
 
-/-- extracted from the C++ template at T = Sym; 3 path(s) -/
-def Interval.intersectsBox {α : Type} [LE α] [DecidableLE α] (b : Interval α) (o : Interval α) : Bool :=
-  if b.min ≤ o.max then
-    if o.min ≤ b.max then
-      true
-    else
-      false
-  else
+/-- extracted from the C++ template at T = Sym; 5 path(s) -/
+def Interval.intersectsBox {α : Type} [LT α] [LE α] [DecidableLT α] [DecidableLE α] (b : Interval α) (o : Interval α) : Bool :=
+  if b.max < b.min then
     false
+  else
+    if o.max < o.min then
+      false
+    else
+      if b.min ≤ o.max then
+        if o.min ≤ b.max then
+          true
+        else
+          false
+      else
+        false
 
 /-- extracted from the C++ template at T = Sym; 2 path(s) -/
 def Interval.isEmpty {α : Type} [LT α] [DecidableLT α] (b : Interval α) : Bool :=
